@@ -637,6 +637,10 @@ macro_rules! impl_nio_read_iovec {
                             if blocking {
                                 $crate::syscall::set_blocking($fd);
                             }
+                            if received > 0 {
+                                // report the bytes moved so far, not the result of the last call
+                                r = received.try_into().expect("received overflow");
+                            }
                             return r;
                         }
                     }
@@ -647,6 +651,10 @@ macro_rules! impl_nio_read_iovec {
                 std::mem::forget(vec);
                 if blocking {
                     $crate::syscall::set_blocking($fd);
+                }
+                if received > 0 {
+                    // report the bytes moved so far, not the result of the last call
+                    r = received.try_into().expect("received overflow");
                 }
                 r
             }
@@ -856,6 +864,10 @@ macro_rules! impl_nio_write_iovec {
                             if blocking {
                                 $crate::syscall::set_blocking($fd);
                             }
+                            if sent > 0 {
+                                // report the bytes moved so far, not the result of the last call
+                                r = sent.try_into().expect("sent overflow");
+                            }
                             return r;
                         }
                     }
@@ -866,6 +878,10 @@ macro_rules! impl_nio_write_iovec {
                 std::mem::forget(vec);
                 if blocking {
                     $crate::syscall::set_blocking($fd);
+                }
+                if sent > 0 {
+                    // report the bytes moved so far, not the result of the last call
+                    r = sent.try_into().expect("sent overflow");
                 }
                 r
             }
